@@ -78,6 +78,13 @@ class FactoryError(Exception):
     """Exception produced by an instrumented error factory."""
 
 
+class FalsyFactoryError(FactoryError):
+    """An exception object that is falsy (e.g. an exception type that also is a sized container)."""
+
+    def __len__(self) -> int:
+        return 0
+
+
 class BodyError(Exception):
     """Exception raised by an instrumented body."""
 
@@ -193,7 +200,7 @@ class Hub:
         spec = self.truth.get("error:" + id_)
         if spec == "nonexc":
             return "not an exception"
-        err = FactoryError(id_)
+        err = (FalsyFactoryError if sum(map(ord, id_)) % 3 == 0 else FactoryError)(id_)
         self.factory_made.setdefault(id_, []).append(err)
         return err
 
@@ -234,7 +241,11 @@ class Hub:
     def errcls(self, id_: str) -> type:
         cls = self.errclasses.get(id_)
         if cls is None:
-            cls = type("E_" + id_, (Exception,), {})
+            attrs = {}  # type: Dict[str, Any]
+            if sum(map(ord, id_)) % 3 == 1:
+                # an exception type whose instances are falsy: the library must not judge errors by truthiness
+                attrs = {"__bool__": lambda self: False}
+            cls = type("E_" + id_, (Exception,), attrs)
             self.errclasses[id_] = cls
         return cls
 
